@@ -51,7 +51,8 @@ impl FromStr for TransformType {
             .ok_or_else(|| SvgdxError::ParseError("No closing bracket".to_owned()))?;
         let args = svg_number_list(args)?;
         // See https://www.w3.org/TR/SVG11/coords.html#TransformAttribute
-        Ok(match name.to_lowercase().as_str() {
+        // "translate" wsp* "(": white space may separate the name from its arguments
+        Ok(match name.trim().to_lowercase().as_str() {
             "translate" => {
                 // "translate(<tx> [<ty>]), which specifies a translation by tx and ty. If <ty> is not provided, it is assumed to be zero."
                 if args.len() == 1 {
